@@ -3,7 +3,7 @@
 # count (split over shards), shards = parallel processes with different PRNG values.
 
 PROPS = {}
-HOOK_COMMITS = ["47c42dd", "a2d506f", "d83715b"]
+HOOK_COMMITS = ["47c42dd", "a2d506f", "d83715b", "558481b"]
 NOT_CLAIMED = {}
 
 
@@ -36,16 +36,20 @@ prop("C10",
 prop("C15",
      title="Key-to-slot mapping follows the Redis Cluster specification",
      quick=[{"re": "^TestC15(Exhaustive)?$", "checks": 20000},
-            {"re": "^TestC15Range$", "checks": 150}],
+            {"re": "^TestC15Range$", "checks": 150},
+            {"re": "^TestC15EndToEnd$", "checks": 2, "shards": 2, "timeout": 600}],
      thorough=[{"re": "^TestC15(Exhaustive)?$", "checks": 3000000, "shards": 6, "timeout": 1500},
                {"re": "^TestC15Range$", "checks": 40000, "shards": 4, "timeout": 1500},
-               {"re": "^TestC15AllSingleSlots$", "checks": 1, "shards": 8, "timeout": 1500}],
+               {"re": "^TestC15AllSingleSlots$", "checks": 1, "shards": 8, "timeout": 1500},
+               {"re": "^TestC15EndToEnd$", "checks": 36, "shards": 6, "timeout": 1500}],
      rule="(1) exhaustive: every string over {'{','}','a','b'} of length 0..8 (87381 keys); (2) rapid-generated keys from a brace grammar "
           "(empty tags, unbalanced, nested, repeated, arbitrary bytes incl. invalid UTF-8); (3) slot ranges [l,r]: single slots, shard "
           "edges, random (thorough: all 16384 single-slot ranges). Oracles: utils.KeyToSlot == reference implementation of the Redis "
           "Cluster rule over a bit-by-bit CRC16/XMODEM; both private crc16 copies and go-cluster GetSlot (brace-free keys) == reference "
           "CRC16; ChoseSlotInRange key non-empty, reference slot in [l,r], excluded by filter.FilterKey under a generated key filter configuration (none, "
-          "or a white/black list of 1-3 prefixes, some of which cover the checkpoint key and some of which do not mention it); findKeyInRange key in range. "
+          "or a white/black list of 1-3 prefixes, some of which cover the checkpoint key and some of which do not mention it); findKeyInRange key in range; "
+          "(4, TestC15EndToEnd) complete DbSyncer.Sync() runs of a cluster-shard syncer (slot ranges [0,5460], [0,0], [0,16383], [5461,10922], [10923,16383], "
+          "[1,16383], [12866,12866], [16383,16383]; fake source + model target, resume on): every key the syncer stores a checkpoint under hashes into its own range. "
           "Non-trivial: key with >= 2 braces; range narrower than 4 slots. Distinct = hash of key / of (l,r).",
      technique="property-based testing (rapid) + exhaustive small-alphabet enumeration against a reference implementation of the Redis Cluster hash-slot rule (differential oracle)",
      level_text="Exhaustive over all brace layouts up to length 8 plus generated search; differential against an independent reference (bitwise CRC16, literal spec rule) self-checked on published check values. The function is pure, so this is the strongest testing-level evidence available; no absence claim beyond the enumerated space.",
@@ -84,9 +88,11 @@ prop("C01",
 
 prop("C11",
      title="Checksums are the Redis CRC-64 of the covered bytes; corruption is detected",
-     quick=[{"re": "^TestC11$", "checks": 500}],
-     thorough=[{"re": "^TestC11$", "checks": 120000, "shards": 12, "timeout": 1700}],
-     rule="(digest) byte strings 0-64000 bytes with 1-8 generated write boundaries through pkg/rdb/digest, the in-repo cupcake crc64 "
+     quick=[{"re": "^TestC11$", "checks": 500},
+            {"re": "^TestC11Concurrent$", "checks": 120, "shards": 2}],
+     thorough=[{"re": "^TestC11$", "checks": 120000, "shards": 12, "timeout": 1700},
+               {"re": "^TestC11Concurrent$", "checks": 20000, "shards": 4, "timeout": 1700}],
+     rule="(concurrent parsers, TestC11Concurrent) 2-4 parsers run at the same time (the tool runs one per source node), one over a file of 64 KiB-2 MiB strings, the others over files of many small keys: every payload each emits carries the reference CRC-64 of exactly its own bytes. (digest) byte strings 0-64000 bytes with 1-8 generated write boundaries through pkg/rdb/digest, the in-repo cupcake crc64 "
           "and the module copy linked by verifyDump/CheckVersionChecksum: Sum64/Sum/Reset/Digest == reference CRC-64 (Jones, reflected, "
           "init 0; derived bit-by-bit, check value e9c6d914c4b8d9ca). (rdb) small RDB files written locally so that every pure data "
           "position (raw string contents, expiry values, the 8 checksum bytes) is known: intact file loads, and for EVERY such position "
@@ -153,10 +159,11 @@ prop("C18",
      rule="(sequential) rapid state machine over Write(k) (k from 0 to 2*cap+5, so many wrap-arounds), ReadAt(k,o) with o drawn around rpos-3..rpos+3, "
           "wpos-3..wpos+3, the middle, 0 and random, NewReader, Reader.Read, IsValid, SeekTo (to the current offset, around the range edges), Offset, "
           "DataRange, Close; memory backlogs of 1,2,3,5 alignment units and file backlogs of 1 or 3 x 4 MiB; model = total written + capacity + "
-          "position-dependent byte pattern; only non-blocking calls are issued. After every call: invalid-offset error iff o > wpos or o+cap < wpos, "
+          "position-dependent byte pattern; the caller's buffer is overwritten right after every Write (it owns it again); only calls the model says cannot block are issued, those beyond the write position under a 3 s watchdog. After every call: invalid-offset error iff o > wpos or o+cap < wpos, "
           "else 1<=n<=min(k,wpos-o) bytes equal to what was written at o; DataRange == (max(0,wpos-cap), wpos); validity <=> rpos<=seek<=wpos; "
           "reads/writes after Close fail. (waiters) 1-5 readers (ReadAt or Reader.Read) block at the write position, then a write (<= cap) or Close "
-          "(file backend, one case in six: optionally after the owner has already closed the backing file, so that the truncation inside Close fails): "
+          "(file backend, one case in six: optionally after the owner has already closed the backing file, so that the truncation inside Close fails; one close in three with the "
+          "store's own close slowed to 20 ms through the hook backlog.VerifSlowClose, which widens the window between waking the readers and the store being closed): "
           "all must return within 8 s with the data / with an error (goroutine stacks decide between defect and harness trouble). Non-trivial: "
           "sequential run with >= 2x capacity written and both valid and invalid-offset reads; waiter case with >= 2 readers. Distinct = hash of history.",
      technique="stateful property-based testing (rapid state machine vs an absolute-offset reference model) + generated multi-reader wake-up scenarios",
@@ -167,9 +174,11 @@ prop("C18",
 
 prop("C13",
      title="Key filtering rewrites multi-key commands without corrupting them",
-     quick=[{"re": "^TestC13(Enumerate)?$", "checks": 20000}],
-     thorough=[{"re": "^TestC13(Enumerate)?$", "checks": 3000000, "shards": 8, "timeout": 1700}],
-     rule="(enumeration) every command of the tool's table x every valid key count 1..5 x every pass/fail pattern of its keys x {blacklist, "
+     quick=[{"re": "^TestC13(Enumerate)?$", "checks": 20000},
+            {"re": "^TestC13Huge$", "checks": 40}],
+     thorough=[{"re": "^TestC13(Enumerate)?$", "checks": 3000000, "shards": 8, "timeout": 1700},
+               {"re": "^TestC13Huge$", "checks": 2000, "shards": 4, "timeout": 1700}],
+     rule="(huge commands, TestC13Huge) MSET/MSETNX/DEL/UNLINK/PFMERGE with 32767-70000 keys (up to 140000 arguments), passing and filtered keys interleaved with period 2/3/7/1000, white or black list, against the same reference rewrite. (enumeration) every command of the tool's table x every valid key count 1..5 x every pass/fail pattern of its keys x {blacklist, "
           "whitelist}, with values for MSET pairs, trailing options, BITOP's operation, B[LR]POP's timeout; (random) rapid-drawn command, key "
           "count, key contents (prefixes of / equal to / extending the listed prefixes, checkpoint-prefixed keys, arbitrary bytes, option values "
           "that look like keys), 0-3 prefixes as whitelist or blacklist or no filter, commands outside the table. Oracle: reference rewrite written "
@@ -236,10 +245,12 @@ prop("C20",
      title="Source re-discovery selects a node that really is the master",
      timing=True,
      quick=[{"re": "^TestC20$", "checks": 1, "timeout": 300},
-            {"re": "^TestC20Syncer$", "checks": 400}],
+            {"re": "^TestC20Syncer$", "checks": 400},
+            {"re": "^TestC20SyncerWindow$", "checks": 1, "timeout": 300}],
      thorough=[{"re": "^TestC20$", "checks": 96, "shards": 12, "timeout": 1700},
-               {"re": "^TestC20Syncer$", "checks": 120000, "shards": 4, "timeout": 1700}],
-     rule="one rapid case = a batch of 80-120 shard scripts run concurrently (the retry back-off sleeps 6+5+..+1 s, so a case costs ~21 s of wall "
+               {"re": "^TestC20Syncer$", "checks": 120000, "shards": 4, "timeout": 1700},
+               {"re": "^TestC20SyncerWindow$", "checks": 24, "shards": 12, "timeout": 1700}],
+     rule="(syncer over the whole retry window, TestC20SyncerWindow) batches of 4-8 syncers run DbSyncer.updateSlotTopology with the real back-off (~21 s): nodes that never report master (the update must not return as if a master had been found) or a node that reports master only from its 2nd-7th INFO round on (the update must return with exactly that node). one rapid case = a batch of 80-120 shard scripts run concurrently (the retry back-off sleeps 6+5+..+1 s, so a case costs ~21 s of wall "
           "time whatever its size): 1-6 nodes in any order (the configured source need not be the master), and for each node and each of the 7 "
           "attempts one of {master, slave, connect error, command error, INFO without role line, INFO with look-alike lines before the role line}; "
           "shapes: one master, promoted replica with dead old source, master appearing at attempt j, no master, several masters, fully random. "
@@ -383,9 +394,11 @@ prop("C16",
      title="Scan-based migration (rump) copies every scanned key faithfully",
      timing=True,
      quick=[{"re": "^TestC16$", "checks": 9, "shards": 3, "timeout": 600},
+            {"re": "^TestC16BigTargetDB$", "checks": 2, "shards": 2, "timeout": 600},
             {"re": "^TestC16KeyFile$", "checks": 4, "timeout": 600},
             {"re": "^TestC16QoS$", "checks": 1, "timeout": 600}],
      thorough=[{"re": "^TestC16$", "checks": 1200, "shards": 12, "timeout": 1700},
+               {"re": "^TestC16BigTargetDB$", "checks": 120, "shards": 4, "timeout": 1700},
                {"re": "^TestC16KeyFile$", "checks": 300, "shards": 3, "timeout": 1700},
                {"re": "^TestC16QoS$", "checks": 60, "shards": 6, "timeout": 1700}],
      rule="one rapid case = one configuration and a batch of 8-20 executors run concurrently (QoS bucket and status ticker cost ~2 s per executor): model "
@@ -459,7 +472,7 @@ prop("C06",
      title="Configured filters are honoured identically in every mode and phase",
      timing=True,
      quick=[{"re": "^TestC06$", "checks": 20000},
-            {"re": "^TestC06Paths$", "checks": 12, "shards": 4, "timeout": 600}],
+            {"re": "^TestC06Paths$", "checks": 40, "shards": 8, "timeout": 600}],
      thorough=[{"re": "^TestC06$", "checks": 2000000, "shards": 4, "timeout": 1700},
                {"re": "^TestC06Paths$", "checks": 1500, "shards": 12, "timeout": 1700}],
      rule="(predicates) filter configurations (db white|black list of numbers incl. 1/10/11, key white|black list of 1-3 prefixes from a small alphabet so that keys "
